@@ -50,6 +50,12 @@ func init() {
 			"enc_len_ge2", "negative_values", "top_bit_positive", "json_roundtrips", "codec_roundtrips", "shorter_rejected"},
 		Assumptions: []string{"math/big arithmetic and encoding/hex, encoding/json are the reference", "minimal length is taken over L >= 1 (a number occupies at least one byte; the empty string is also tolerated for zero)"},
 		// single-goroutine differential check: keep the GC from fanning out over all cores
+		TimeoutSec: func(t string) int {
+			if t == ev.Thorough {
+				return 5400
+			}
+			return 900
+		},
 		Env: func(string, int) []string { return []string{"GOMAXPROCS=2", "GOGC=400"} },
 		Run: run,
 	})
